@@ -356,6 +356,16 @@ func init() {
 						db := dst.Bounds()
 						m := wk.runner.Ask(fmt.Sprintf("img_transform %s %s %d %d %d %d %d %s", dkind, hx(origView), stride, db.Min.X, db.Min.Y, db.Max.X, db.Max.Y, pl))
 						wk.res.modelCase("img_transform")
+						if len(origView) <= 160 && len(pcs) > 0 && len(pcs) <= 12 && it%7 == 0 {
+							var items []string
+							for _, p := range cols {
+								items = append(items, fmt.Sprintf("((%d, %d), (%d, %d, %d, %d))", p.x, p.y, p.c.R, p.c.G, p.c.B, p.c.A))
+							}
+							mb := make([]byte, len(m)/2)
+							fmt.Sscanf(m, "%x", &mb)
+							xcheck("img_transform", 24, fmt.Sprintf("transform {| ikind := K%s; ipix := %s; istride := %d; ix0 := %d; iy0 := %d; ix1 := %d; iy1 := %d |} [%s] = %s",
+								dkind, coqBytes(origView), stride, db.Min.X, db.Min.Y, db.Max.X, db.Max.Y, strings.Join(items, "; "), coqBytes(mb)))
+						}
 						if m != hx(viewPix) {
 							wk.res.mismatch(Mismatch{Seq: wk.seq, Stream: "img_transform", Input: in, Impl: short(hx(viewPix), 200), Model: short(m, 200)})
 						}
@@ -373,6 +383,9 @@ func init() {
 		}
 		c.res.sample(map[string]interface{}{"transform": "srgb.LineariseImage", "src": "YCbCr420 sub-image", "dst": "NRGBA64 sub-image of a sentinel-filled parent", "parallelism": []int{1, 2, 3, 7, 16}})
 		c.runJobs(jobs)
+		if st := writeXCheck(c.out+"/Gen", "From Coq Require Import List ZArith. From Coq Require Import Strings.Byte. Import ListNotations.\nFrom PrismV Require Import Img.Image."); st != nil {
+			c.res.GenStages = append(c.res.GenStages, st)
+		}
 		oldProcs := runtime.GOMAXPROCS(2)
 		c.runJobs(tallJobs)
 		runtime.GOMAXPROCS(oldProcs)
